@@ -453,6 +453,76 @@ impl Scenario for C01 {
             let at = rng.usize_below(steps.len() + 1);
             steps.splice(at..at, f);
         }
+        // Half of the 5-voter runs get a "leader returns" fragment: a leads and reaches only
+        // b; c is elected by the others and overwrites both; a leads again while whatever it
+        // remembered about b's progress is stale; b leads last. Every count and the choice
+        // of nodes are random; what follows depends on the leader's bookkeeping being reset.
+        if nn == 5 && rng.chance(1, 2) {
+            let a = rng.below(5) as u8;
+            let b = ((u64::from(a) + 1 + rng.below(4)) % 5) as u8;
+            let mut rest: Vec<u8> = (0..5u8).filter(|x| *x != a && *x != b).collect();
+            let ci = rng.usize_below(rest.len());
+            let c = rest.remove(ci);
+            let d = *rng.pick(&rest);
+            let mut f: Vec<Step> = vec![Step::Heal];
+            let deliver = |f: &mut Vec<Step>, rng: &mut Rng, lo: u64, hi: u64| {
+                // five nodes, messages to cut-off peers count as deliveries (dropped): a
+                // round of requests and answers takes 8-16 delivery steps
+                for _ in 0..2 * rng.range(lo, hi) {
+                    f.push(Step::Deliver { pick: 0 });
+                }
+            };
+            let both = |f: &mut Vec<Step>, rng: &mut Rng| {
+                for pick in 0..2u8 {
+                    f.push(Step::Propose { pick, payload: rng.below(1 << 20) as u32 });
+                }
+                for pick in 0..2u8 {
+                    f.push(Step::Heartbeat { pick });
+                }
+            };
+            f.push(Step::Timeout { node: a });
+            deliver(&mut f, rng, 8, 12);
+            f.push(Step::Heartbeat { pick: 0 });
+            deliver(&mut f, rng, 8, 10);
+            f.push(Step::Partition { mask: (1 << a) | (1 << b) });
+            for _ in 0..rng.range(1, 3) {
+                f.push(Step::Propose { pick: 0, payload: rng.below(1 << 20) as u32 });
+            }
+            f.push(Step::Heartbeat { pick: 0 });
+            deliver(&mut f, rng, 2, 6);
+            f.push(Step::Timeout { node: c });
+            deliver(&mut f, rng, 6, 10);
+            f.push(Step::Heartbeat { pick: 1 });
+            f.push(Step::Heartbeat { pick: 0 });
+            deliver(&mut f, rng, 5, 8);
+            both(&mut f, rng);
+            deliver(&mut f, rng, 6, 10);
+            f.push(Step::Heal);
+            both(&mut f, rng);
+            deliver(&mut f, rng, 10, 16);
+            // the log repair of the deposed pair takes a few probe rounds
+            for _ in 0..rng.range(1, 4) {
+                for pick in 0..2u8 {
+                    f.push(Step::Heartbeat { pick });
+                }
+                deliver(&mut f, rng, 8, 12);
+            }
+            f.push(Step::Timeout { node: a });
+            deliver(&mut f, rng, 8, 14);
+            f.push(Step::Partition { mask: (1 << a) | (1 << d) });
+            both(&mut f, rng);
+            deliver(&mut f, rng, 2, 6);
+            f.push(Step::Heal);
+            f.push(Step::Isolate { node: a });
+            f.push(Step::Timeout { node: b });
+            deliver(&mut f, rng, 8, 14);
+            both(&mut f, rng);
+            deliver(&mut f, rng, 8, 14);
+            both(&mut f, rng);
+            deliver(&mut f, rng, 6, 10);
+            let at = rng.usize_below(steps.len() + 1);
+            steps.splice(at..at, f);
+        }
         Case {
             n,
             wal,
@@ -908,6 +978,92 @@ impl Scenario for C01 {
         for i in 0..n {
             if cl.up(i) {
                 check!(i);
+            }
+        }
+        // ---- adversarial completion (search heuristic, judged by the same oracle). If an entry
+        // some node reported committed is held by fewer than a majority of the (restarted)
+        // nodes, nothing stated has been violated yet — but the nodes that lack it form a
+        // majority: cut the holders off, let the others elect a leader and commit, and the
+        // stated clauses ("no node ever reports a different entry committed at that position",
+        // "every later leader's log contains that entry") decide. Never entered on a tree
+        // whose commit rule is sound.
+        {
+            let maj = n / 2 + 1;
+            let sus = or.ledger.iter().find_map(|(idx, (ent, _))| {
+                let holders: Vec<usize> = (0..n)
+                    .filter(|x| views[*x].as_ref().is_some_and(|v| v.img.log.get(*idx as usize - 1) == Some(ent)))
+                    .collect();
+                (holders.len() < maj).then_some((*idx, holders))
+            });
+            if let Some((idx, holders)) = sus {
+                ctx.probe("committed_entry_held_by_a_minority");
+                ctx.event(&format!("tail: index {idx} was reported committed but only {:?} hold it: the other nodes are cut off from them", holders.iter().map(|h| ids[*h].clone()).collect::<Vec<_>>()));
+                {
+                    let mut g = cl.net.lock().unwrap();
+                    g.inflight.clear();
+                    for h in &holders {
+                        for o in 0..n {
+                            if !holders.contains(&o) {
+                                g.blocked.push((ids[*h].clone(), ids[o].clone()));
+                                g.blocked.push((ids[o].clone(), ids[*h].clone()));
+                            }
+                        }
+                    }
+                }
+                let others: Vec<usize> = (0..n).filter(|x| !holders.contains(x) && cl.up(*x)).collect();
+                let best = others.iter().copied().max_by_key(|i| views[*i].as_ref().map(|v| (v.img.log.last().map(|e| e.term).unwrap_or(0), v.img.log.len())).unwrap_or((0, 0)));
+                if let Some(b) = best {
+                    let drain = |cl: &Cluster| -> Vec<usize> {
+                        let mut acted = Vec::new();
+                        let mut guard = 0;
+                        while let Some(m) = cl.take_inflight(0) {
+                            guard += 1;
+                            if guard > 2000 {
+                                break;
+                            }
+                            if cl.blocked(&m.from, &m.to) {
+                                continue;
+                            }
+                            if let Some(to) = cl.idx(&m.to) {
+                                if cl.up(to) {
+                                    cl.deliver(&m);
+                                    acted.push(to);
+                                }
+                            }
+                        }
+                        acted
+                    };
+                    for attempt in 0..3 {
+                        ctx.advance_ms(400);
+                        cl.election(others[(others.iter().position(|x| *x == b).unwrap_or(0) + attempt) % others.len()]);
+                        for x in drain(&cl) {
+                            check!(x);
+                        }
+                        let lead = cl.leaders().into_iter().find(|l| others.contains(l));
+                        if let Some(l) = lead {
+                            for _ in 0..idx + 2 {
+                                payload_seq += 1;
+                                let id = ids[l].clone();
+                                let fp = case.fast_path;
+                                let _ = cl.on_node(l, |nd| nd.propose(mk_block((0xADAD << 16) | payload_seq, &id, fp)));
+                                for _ in 0..2 {
+                                    cl.heartbeat(l);
+                                    for x in drain(&cl) {
+                                        check!(x);
+                                    }
+                                }
+                                check!(l);
+                            }
+                            break;
+                        }
+                    }
+                }
+                cl.net.lock().unwrap().blocked.clear();
+                for i in 0..n {
+                    if cl.up(i) {
+                        check!(i);
+                    }
+                }
             }
         }
         let mut committed_in_tail = false;
